@@ -2,7 +2,7 @@
    ONLY statements: each theorem is closed by `exact` of a lemma proved elsewhere and followed by Print Assumptions. *)
 From Coq Require Import ZArith NArith List Bool Lia Permutation SpecFloat.
 Import ListNotations.
-Require Import Base Float Builtins Eq Strings.
+Require Import Base Float Builtins Eq Complex Strings.
 Open Scope Z_scope.
 Theorem veqb_sym  :
   forall a b, veqb a b = veqb b a.
@@ -53,4 +53,22 @@ Theorem merge_spec ds k :
   dict_lookup (fold_left (fun acc d => fold_left (fun a kv => dict_insert a (fst kv) (snd kv)) d acc) ds []) k = last_equal (concat ds) k None.
 Proof. exact (Eq.merge_spec ds k). Qed.
 Print Assumptions merge_spec.
+
+(* complex numbers: equal exactly when real and imaginary parts are *)
+Theorem complex_eq_componentwise r i r' i' :
+  num_eq (VComplex r i) (VComplex r' i') = num_eq (VFloat r) (VFloat r') && num_eq (VFloat i) (VFloat i').
+Proof. exact (Complex.complex_eq_componentwise r i r' i'). Qed.
+Print Assumptions complex_eq_componentwise.
+
+(* a complex number equals an integer or a real exactly when its imaginary part is zero and its real part equals it *)
+Theorem complex_eq_real r i x :
+  is_real x = true ->
+  num_eq (VComplex r i) x = num_eq (VFloat r) x && f_is_zero i.
+Proof. exact (Complex.complex_eq_real r i x). Qed.
+Print Assumptions complex_eq_real.
+
+Theorem complex_never_equals_other_kinds r i b :
+  numeric b = false -> veqb (VComplex r i) b = false /\ veqb b (VComplex r i) = false.
+Proof. exact (Complex.complex_never_equals_other_kinds r i b). Qed.
+Print Assumptions complex_never_equals_other_kinds.
 
